@@ -98,6 +98,15 @@ Judge(T) ==
            THEN {<<(IF Missing(C[k]) THEN "C08" ELSE "C06"), "overlap-filter_pair-not-exact", C[k].l, C[k].r>> :
                     k \in {k \in DOMAIN C : ~FpExact(k)}}
            ELSE {})
+     \cup (IF T.kind = "candset"
+           THEN (* C09: a candidate pair of two present, token-less values survives filter_candset iff allow_empty *)
+                (* holds and the measure admits empty pairs (never for OVERLAP and the OverlapFilter)              *)
+                LET Kept(k) == \E r \in DOMAIN Rows : Rows[r].id = C[k].id
+                    BothE(k) == ~Missing(C[k]) /\ Len(LRow(C[k].l).v) = 0 /\ Len(RRow(C[k].r).v) = 0
+                    Admit == T.filt # "OVERLAP" /\ EmptyAdmitted(T.meas, T.ae = 1)
+                IN  {<<"C09", "empty-pair-kept", C[k].l, C[k].r>> : k \in {k \in DOMAIN C : BothE(k) /\ Kept(k) /\ ~Admit}}
+                    \cup {<<"C09", "empty-pair-dropped", C[k].l, C[k].r>> : k \in {k \in DOMAIN C : BothE(k) /\ ~Kept(k) /\ Admit}}
+           ELSE {})
      \cup (IF T.kind = "candset" /\ T.filt # "OVERLAP"
            THEN {<<"C08", "filter_pair-missing-value", C[k].l, C[k].r>> :
                     k \in {k \in DOMAIN C : Missing(C[k]) /\ T.fp[k] # (IF T.am = 1 THEN 0 ELSE 1)}}
